@@ -93,7 +93,10 @@ impl Check for C02 {
             };
             let up = dir(&mut g);
             let down = dir(&mut g);
-            return json!({"net": net, "side": "pair", "tasks": n, "up": up, "down": down, "api": *g.pick(&["direct", "queued"]), "stagger_us": *g.pick(&[0u64, 0, 1, 40]), "scheme": gen_scheme_small(&mut g)});
+            return json!({"net": net, "side": "pair", "tasks": n, "up": up, "down": down, "api": *g.pick(&["direct", "queued"]), "stagger_us": *g.pick(&[0u64, 0, 1, 40]), "scheme": gen_scheme_small(&mut g),
+                // the transport stops moving bytes for a long but finite time in mid-transfer (writers park for seconds to a
+                // minute), then resumes: nothing may fail, nothing may end up on another stream
+                "long_stall": if g.chance(15) { json!({"dir": *g.pick(&["c2s", "s2c", "both"]), "at_us": *g.pick(&[0u64, 50, 500, 5_000, 50_000]), "for_ms": *g.pick(&[3_000u64, 11_000, 31_000, 61_000])}) } else { Value::Null }});
         }
         let net = gen_net(&mut g, false, true);
         let side = if g.chance(60) { "server" } else { "client" };
@@ -383,6 +386,24 @@ async fn run_pair(plan: &Value) -> Outcome {
     let cfg = crate::sim::pipe_cfg_from(&plan["net"]["pipe"]).unwrap_or_default();
     let scheme = plan["scheme"].as_str().unwrap_or("stop=0");
     let mut pair = crate::tiera::make_pair(factory(scheme), factory(scheme), None, cfg.clone(), cfg, false).await;
+    if plan["long_stall"].is_object() {
+        let ls = plan["long_stall"].clone();
+        let (c2s, s2c) = (pair.c2s.clone(), pair.s2c.clone());
+        anytls_simnet::spawn(async move {
+            tokio::time::sleep(Duration::from_micros(ls["at_us"].as_u64().unwrap_or(0))).await;
+            let dir = ls["dir"].as_str().unwrap_or("c2s").to_string();
+            if dir != "s2c" {
+                c2s.set_stalled(true);
+            }
+            if dir != "c2s" {
+                s2c.set_stalled(true);
+            }
+            anytls_simnet::world::fault_fired("transport.peer_stall_long_finite");
+            tokio::time::sleep(Duration::from_millis(ls["for_ms"].as_u64().unwrap_or(3_000))).await;
+            c2s.set_stalled(false);
+            s2c.set_stalled(false);
+        });
+    }
     let n = plan["tasks"].as_u64().unwrap_or(2) as usize;
     let u64s = |v: &Value| -> Vec<u64> { v.as_array().map(|a| a.iter().filter_map(|x| x.as_u64()).collect()).unwrap_or_default() };
     let up = u64s(&plan["up"]);
